@@ -107,6 +107,91 @@ def parseAttrTable (s : String) : Option AttrTable :=
       | _ => none)
   | _ => none
 
+mutual
+partial def parseTy : SExpr → Option Ty
+  | .atom "any" => some .any
+  | .atom "int" => some .int
+  | .atom "float" => some .float
+  | .atom "bool" => some .bool
+  | .atom "str" => some .str
+  | .atom "callable" => some .callable
+  | .list [.atom "other", .str s] => some (.other s)
+  | .list [.atom "tvar", .str s] => some (.tvar s)
+  | .list [.atom "cls", .str n, .list args] => do pure (.cls n (← parseTyL args))
+  | .list [.atom "iterable", t] => do pure (.iterable (← parseTy t))
+  | .list [.atom "stream", t] => do pure (.stream (← parseTy t))
+  | _ => none
+partial def parseTyL : List SExpr → Option (List Ty)
+  | [] => some []
+  | x :: xs => do pure ((← parseTy x) :: (← parseTyL xs))
+end
+
+mutual
+partial def renderTy : Ty → SExpr
+  | .any => .atom "any"
+  | .int => .atom "int"
+  | .float => .atom "float"
+  | .bool => .atom "bool"
+  | .str => .atom "str"
+  | .callable => .atom "callable"
+  | .other s => .list [.atom "other", .str s]
+  | .tvar s => .list [.atom "tvar", .str s]
+  | .cls n args => .list [.atom "cls", .str n, .list (renderTyL args)]
+  | .iterable t => .list [.atom "iterable", renderTy t]
+  | .stream t => .list [.atom "stream", renderTy t]
+  | .dictDC ks ts => .list [.atom "dictDC", strsToSExpr ks, .list (renderTyL ts)]
+partial def renderTyL : List Ty → List SExpr
+  | [] => []
+  | t :: ts => renderTy t :: renderTyL ts
+end
+
+def parseOpt {α : Type} (f : SExpr → Option α) : SExpr → Option (Option α)
+  | .atom "none" => some none
+  | .list [.atom "some", x] => (f x).map some
+  | _ => none
+
+def parseStrS : SExpr → Option String
+  | .str s => some s
+  | _ => none
+
+def parseCb : SExpr → Option CbSpec
+  | .list [.str tag, md, rn, aa] => do
+    pure { tag := tag, md := ← parseOpt PyVal.ofSExpr md, rename := ← parseOpt parseStrS rn, addArg := ← parseOpt Const.ofSExpr aa }
+  | _ => none
+
+def parseParam : SExpr → Option Param
+  | .list [.str n, d] => do pure { name := n, dflt := ← parseOpt Const.ofSExpr d }
+  | _ => none
+
+def parseList {α : Type} (f : SExpr → Option α) : SExpr → Option (List α)
+  | .list xs => xs.mapM f
+  | _ => none
+
+def parseMethod : SExpr → Option MethodInfo
+  | .list [.str n, ps, r, cb] => do
+    pure { name := n, params := ← parseList parseParam ps, ret := ← parseOpt parseTy r, cb := ← parseOpt parseCb cb }
+  | _ => none
+
+def parseProp : SExpr → Option PropInfo
+  | .list [.str n, cb, r] => do pure { name := n, cb := ← parseOpt parseCb cb, ret := ← parseTy r }
+  | _ => none
+
+def parseKlass : SExpr → Option Klass
+  | .list [.str n, tps, b, ms, ps, cb, .atom coll] => do
+    pure { name := n, tparams := ← strsOfSExpr tps, base := ← parseOpt parseTy b, methods := ← parseList parseMethod ms,
+           props := ← parseList parseProp ps, classCb := ← parseOpt parseCb cb, collection := coll == "true" }
+  | _ => none
+
+def parseFunc : SExpr → Option FuncInfo
+  | .list [.str n, ps, r, cb] => do
+    pure { name := n, params := ← parseList parseParam ps, ret := ← parseOpt parseTy r, proc := ← parseOpt parseCb cb }
+  | _ => none
+
+def parseModel (s : String) : Option Model :=
+  match SExpr.parse s with
+  | some (.list [cs, fs]) => do pure { classes := ← parseList parseKlass cs, funcs := ← parseList parseFunc fs }
+  | _ => none
+
 def okE (e : Expr) : String := "ok\t" ++ e.render
 def bad : String := "err\tbad-request"
 
@@ -185,6 +270,12 @@ def handle (op : String) (args : List String) : String :=
   | "resolveCalled", [e] => match parseExpr e with
     | some e => okE (resolveCalled [] e)
     | none => bad
+  | "streamOp", [m, op, ty, lam] =>
+    match parseModel m, (SExpr.parse ty).bind parseTy, parseExpr lam with
+    | some m, some ty, some lam => (match streamOp m op ty lam with
+      | .ok (l, t, st) => "ok\t" ++ (SExpr.list [l.toSExpr, renderTy t, .list (PyVal.toSExprL st.md), strsToSExpr st.log]).render
+      | .error err => "err\t" ++ err.render)
+    | _, _, _ => bad
   | "ev", [ds, env, e] => match parseVal ds, parseEnv env, parseExpr e with
     | some ds, some env, some e => resStr (ev (driverWorld ds) (Env.ofList env.reverse) e)
     | _, _, _ => bad
